@@ -57,6 +57,10 @@ type verifEngC struct {
 	body      func(s *verifEngC, c *check.C)
 	permute   bool
 	revertedNotBlocked map[int]bool
+	// C14: store calls made without the state lock park here
+	storeYield  bool
+	storeSeq    int
+	storeParked []*verifStorePark
 }
 
 func verifNumLessC(a, b string) bool {
